@@ -72,7 +72,8 @@ def gen_stage(tape, name, cleanups, allow_cleanup, n, hot=1):
     side = []
     for _ in range(tape.weighted("program", [(7, 0), (3, 1), (1, 2)], "n-side")):
         k = tape.weighted("program", [(hot, "leave_call"), (1 if hot > 1 else 0, "selectable"), (hot, "log_err"), (hot, "drop_failed"),
-                                      (4 if allow_cleanup and len(cleanups) < 3 else 0, "cleanup"), (2, "nothing")], "side")
+                                      (4 if allow_cleanup and len(cleanups) < 3 else 0, "cleanup"), (2, "nothing"),
+                                      (1 if allow_cleanup else 0, "own_observer")], "side")
         if k == "nothing":
             continue
         if k == "leave_call":
@@ -263,6 +264,7 @@ def run_one(tape, opts):
     tw_log.addObserver(legacy_observer)
     globalLogPublisher.addObserver(new_observer)
     obs_before = (sorted(map(id, globalLogPublisher._observers)), sorted(map(id, tw_log.theLogPublisher.observers)))
+    own_observers = []
 
     def run_stage(case, name, spec):
         xlog.append([name, sim.now])
@@ -273,6 +275,13 @@ def run_one(tape, opts):
                 reactor.callLater(s[1], _noop)
             elif s[0] == "selectable":
                 reactor.addReader(FakeSelectable(name))
+            elif s[0] == "own_observer":
+                # the test installs a log observer of its own and registers its removal as a cleanup
+                def obs(event):
+                    pass
+                own_observers.append(obs)
+                globalLogPublisher.addObserver(obs)
+                case.addCleanup(globalLogPublisher.removeObserver, obs)
             elif s[0] == "log_err":
                 tw_log.err(Failure(RuntimeError("logged-" + spec["marker"])))
                 if s[1]:
@@ -368,6 +377,11 @@ def run_one(tape, opts):
             pass
         for s, h in saved_sig.items():
             signal.signal(s, h)
+        for o in own_observers:
+            try:
+                globalLogPublisher.removeObserver(o)
+            except ValueError:
+                pass
         lo = getattr(rt, "_log_observer", None)     # harness hygiene between runs, not part of any oracle
         if lo is not None:
             lo.flushErrors()
@@ -399,8 +413,16 @@ def run_one(tape, opts):
     if running:
         out.violate("reactor-dirty", "still-running", "reactor.running/_started still set")
     if obs_after != obs_before:
-        out.violate("observers-changed", "global" if obs_after[0] != obs_before[0] else "legacy",
-                    f"log observers before {obs_before} after {obs_after}")
+        extra = set(obs_after[0]) - set(obs_before[0])
+        own = {id(o) for o in own_observers}
+        if extra and extra <= own and set(obs_before[0]) <= set(obs_after[0]) and obs_after[1] == obs_before[1]:
+            # the test's own observer: its removal was a registered cleanup that never ran
+            why = (m["halt"][1] if m.get("halt") else "a-tie-or-stall" if (m["tie"] or m["stalled"]) else "no-halt")
+            out.violate("observers-changed", f"own-observer-left:cleanups-skipped-after-{why}",
+                        f"an observer the test installed (removal registered with addCleanup) is still installed; model halt {m.get('halt')}; executed {xlog}")
+        else:
+            out.violate("observers-changed", "global" if obs_after[0] != obs_before[0] else "legacy",
+                        f"log observers before {obs_before} after {obs_after}")
     if sig_after[signal.SIGINT] != signal.default_int_handler:
         out.violate("signal-not-restored", "SIGINT", f"{sig_after[signal.SIGINT]!r}")
     if kind is not None and raised is None and m.get("sigint_at_completion") and not m["stalled"]:
